@@ -12,6 +12,7 @@
 import PyTough.Model.RectGeo
 import PyTough.Proofs.RectGeo
 import PyTough.Proofs.RectGeoCompose
+import PyTough.Proofs.RectGeoComposeCheck
 import PyTough.Proofs.RectGeoExample
 import PyTough.Proofs.FromGeoExample
 
@@ -194,6 +195,84 @@ theorem origin_recovered (g : Geo) (ob : GBlock) (cs : P2) (g2 : Geo) (oc : P3)
 -- the row of the example grid: the axis walk in direction 1 is a line with half widths 1, 2, 3
 example : HalfWidths none Ex.a Ex.steps [2, 4, 6] := by
   refine ⟨2, [4, 6], rfl, by decide +kernel, 4, [6], rfl, by decide +kernel, 6, rfl, by decide +kernel⟩
+
+/-! ### the walk hypotheses derived from the structure of a rectangular lattice
+
+  `rectgeo_spacings_partial` assumes that the three axis walks *are* lines (`AxisLines`: a
+  recursive predicate about the walk's own state).  The two theorems below derive that from a
+  description of the grid as a set: `Row` (distinct registered admissible blocks `b 0 … b n`,
+  direction-`k` connections `cn i` joining `b i` and `b (i+1)` in either orientation, no other
+  direction-`k` connection touching a block of the row except towards boundary blocks) and `Lattice`
+  (the full `(nx+1) x (ny+1) x (nz+1)` box of blocks with its x-, y-, z-connections; every other
+  connection at a block of the box leads to a zero/huge-volume block — atmosphere type 0, 1 or 2,
+  inactive boundary blocks).  Uniqueness of the next block and `HalfWidths` are consequences.
+  Still missing for `rectgeo (fromgeo G)`: (a) that `fromgeo` of a rectangular geometry *is* such a
+  lattice (C04's `grid_block_data` / `grid_connection_origin` give the membership facts; the
+  injectivity of the generated names and the converse "every announced connection is in the grid"
+  have to be assembled), (b) stepped surfaces (the box is then not full: rows only below the
+  surface), (c) which top-layer block `nanargmax` picks (hypothesis `htop`). -/
+
+/-- Following direction `k` from the first block of a row of a grid returns the row's blocks in
+    order and their widths, when each connection's own distances are half the widths of the two
+    blocks it joins — with no assumption on the order of any connection set. -/
+theorem row_track_widths (T : TGrid) (k : Nat) (mv : Option Rat) (n : Nat) (b : Nat → GBlock) (cn : Nat → GConn)
+    (R : Row T k mv n b cn) (hn : 0 < n) (hlen : n ≤ T.blocks.length) (w : Nat → Rat)
+    (hw : ∀ i, i < n → distAt (cn i) (b i).name = w i / 2 ∧ distAt (cn i) (b (i + 1)).name = w (i + 1) / 2) :
+    track T (b 0) k mv = .ok ((List.range' 0 (n + 1)).map b, (List.range' 0 (n + 1)).map w) :=
+  track_row R hn hlen w hw
+
+/-- Spacings of a three-dimensional rectangular lattice (at least two blocks in every direction):
+    from the origin block `blk 0 0 nz` (first row, first column, bottom layer) `block_spacings`
+    returns the widths `wx 0 … wx nx`, `wy 0 … wy ny`, `wz 0 … wz nz` (top layer first), whichever
+    top-layer block is the topmost one.  `_partial`: `htop` (the topmost admissible block found by
+    `nanargmax` is a top-layer block of the box) is assumed, the box is full (flat surfaces), and
+    that `fromgeo G` is a `Lattice` is not proved. -/
+theorem rectgeo_spacings_lattice_partial (T : TGrid) (mv : Rat) (nx ny nz : Nat) (blk : Nat → Nat → Nat → GBlock)
+    (cx cy cz : Nat → Nat → Nat → GConn) (L : Lattice T mv nx ny nz blk cx cy cz)
+    (hx : 0 < nx) (hy : 0 < ny) (hz : 0 < nz)
+    (hlen : nx ≤ T.blocks.length ∧ ny ≤ T.blocks.length ∧ nz ≤ T.blocks.length)
+    (it jt : Nat) (hit : it ≤ nx) (hjt : jt ≤ ny) (htop : topmostBlock T (some mv) = .ok (blk it jt 0))
+    (c0 c1 : P3) (hc0 : (blk it jt 0).centre = some c0) (hc1 : (blk it jt nz).centre = some c1) (hdown : c1.z ≤ c0.z)
+    (wx wy wz : Nat → Rat)
+    (hwx : ∀ i, i < nx → distAt (cx i 0 nz) (blk i 0 nz).name = wx i / 2 ∧
+      distAt (cx i 0 nz) (blk (i + 1) 0 nz).name = wx (i + 1) / 2)
+    (hwy : ∀ j, j < ny → distAt (cy 0 j nz) (blk 0 j nz).name = wy j / 2 ∧
+      distAt (cy 0 j nz) (blk 0 (j + 1) nz).name = wy (j + 1) / 2)
+    (hwz : ∀ l, l < nz → distAt (cz it jt l) (blk it jt l).name = wz l / 2 ∧
+      distAt (cz it jt l) (blk it jt (l + 1)).name = wz (l + 1) / 2) :
+    blockSpacings T (blk 0 0 nz) mv =
+      .ok ((List.range' 0 (nx + 1)).map wx, (List.range' 0 (ny + 1)).map wy, (List.range' 0 (nz + 1)).map wz) :=
+  blockSpacings_lattice L hx hy hz hlen it jt hit hjt htop c0 c1 hc0 hc1 hdown wx wy wz hwx hwy hwz
+
+/-- Every column of a lattice is a vertical line of the grid, and every grid line along
+    directions 1 and 2 is a line: the hypothesis `isLine` of `find_surface_on_line`,
+    `direction_track_sizes` and `next_block_unique` holds on all of them. -/
+theorem lattice_lines (T : TGrid) (mv : Rat) (nx ny nz : Nat) (blk : Nat → Nat → Nat → GBlock)
+    (cx cy cz : Nat → Nat → Nat → GConn) (L : Lattice T mv nx ny nz blk cx cy cz) (i j l : Nat)
+    (hi : i ≤ nx) (hj : j ≤ ny) (hl : l ≤ nz) :
+    isLine T 1 (some mv) none none (blk 0 j l) (rowSteps (fun i => blk i j l) (fun i => cx i j l) 0 nx) = true ∧
+    isLine T 2 (some mv) none none (blk i 0 l) (rowSteps (fun j => blk i j l) (fun j => cy i j l) 0 ny) = true ∧
+    isLine T 3 (some mv) none none (blk i j 0) (rowSteps (fun l => blk i j l) (fun l => cz i j l) 0 nz) = true :=
+  ⟨(L.rowX j l hj hl).isLine_row, (L.rowY i l hi hl).isLine_row, (L.rowZ i j hi hj).isLine_row⟩
+
+-- a 2 x 2 x 2 lattice (widths 2,4 / 3,5 / 1,2) under an atmosphere block connected to the four
+-- top blocks; vertical connections stored lower block first, as `fromgeo` stores them
+example : Lattice Ex2.grid (10 ^ 20) 1 1 1 Ex2.blk Ex2.cx Ex2.cy Ex2.cz := Ex2.lattice
+example : topmostBlock Ex2.grid (some (10 ^ 20)) = .ok (Ex2.blk 0 0 0) := by decide +kernel
+example : blockSpacings Ex2.grid (Ex2.blk 0 0 1) (10 ^ 20) = .ok ([2, 4], [3, 5], [1, 2]) := by
+  have h := rectgeo_spacings_lattice_partial Ex2.grid (10 ^ 20) 1 1 1 Ex2.blk Ex2.cx Ex2.cy Ex2.cz Ex2.lattice
+    (by omega) (by omega) (by omega) (by decide) 0 0 (by omega) (by omega) (by decide +kernel)
+    ⟨1, 3 / 2, -1 / 2⟩ ⟨1, 3 / 2, -2⟩ (by decide +kernel) (by decide +kernel) (by decide +kernel)
+    Ex2.wx Ex2.wy Ex2.wz
+    (by intro i hi; have : i = 0 := by omega
+        subst this; decide +kernel)
+    (by intro j hj; have : j = 0 := by omega
+        subst this; decide +kernel)
+    (by intro l hl; have : l = 0 := by omega
+        subst this; decide +kernel)
+  rw [h]; decide +kernel
+example : Row Ex2.grid 1 (some (10 ^ 20)) 1 (fun i => Ex2.blk i 0 1) (fun i => Ex2.cx i 0 1) :=
+  Ex2.lattice.rowX 0 1 (by omega) (by omega)
 
 /-! ### orientation -/
 
